@@ -6,9 +6,11 @@
 package main
 
 import (
+	"errors"
 	"fmt"
 	"sort"
 	"strings"
+	"sync"
 
 	"github.com/dolthub/go-mysql-server/sql"
 	imt "github.com/dolthub/go-mysql-server/sql/in_mem_table"
@@ -78,6 +80,18 @@ func (o opT) coq() string {
 		return "OpDelete " + coqR(o.R)
 	case "update":
 		return fmt.Sprintf("OpUpdate %s %s", coqR(o.R), coqR(o.R2))
+	case "minsert":
+		return "OpMInsert " + coqR(o.R)
+	case "mdelete":
+		return "OpMDelete " + coqR(o.R)
+	case "mupdate":
+		return fmt.Sprintf("OpMUpdate %s %s", coqR(o.R), coqR(o.R2))
+	case "truncate":
+		return "OpTruncate"
+	case "rows":
+		return "OpRows"
+	case "mrows":
+		return "OpMRows"
 	}
 	panic("bad op " + o.Kind)
 }
@@ -85,7 +99,18 @@ func (o opT) coq() string {
 func fromRow(r [3]uint8) V            { return V{[4]uint8{r[0], r[1], r[2], 0}} }
 func updateWithRow(r [3]uint8, e V) V { return V{[4]uint8{r[0], r[1], r[2], e.F[3]}} }
 func rowOf(r [3]uint8) sql.Row        { return sql.Row{r[0], r[1], r[2]} }
-func rowBack(r sql.Row) [3]uint8      { return [3]uint8{r[0].(uint8), r[1].(uint8), r[2].(uint8)} }
+func rowAdd(r [3]uint8, e V) V        { return V{[4]uint8{e.F[0], e.F[1], e.F[2] | r[2], e.F[3]}} }
+func rowDel(r [3]uint8, e V) V        { return V{[4]uint8{e.F[0], e.F[1], e.F[2] &^ r[2], e.F[3]}} }
+func rowsOf(v V) []V {
+	var r []V
+	for bit := uint8(1); bit <= 2; bit <<= 1 {
+		if v.F[2]&bit != 0 {
+			r = append(r, V{[4]uint8{v.F[0], v.F[1], bit, 0}})
+		}
+	}
+	return r
+}
+func rowBack(r sql.Row) [3]uint8 { return [3]uint8{r[0].(uint8), r[1].(uint8), r[2].(uint8)} }
 
 func bagStr(vs []V) string {
 	ss := make([]string, len(vs))
@@ -146,13 +171,45 @@ func run(c *lib.Ctx, cs caseT) {
 		ks[i] = keyer{m}
 	}
 	set := imt.NewIndexedSet[V](eq, ks)
-	ed := &imt.IndexedSetTableEditor[V]{
-		Set: set,
-		Ops: imt.ValueOps[V]{
-			ToRow:         func(_ *sql.Context, v V) (sql.Row, error) { return sql.Row{v.F[0], v.F[1], v.F[2]}, nil },
-			FromRow:       func(_ *sql.Context, r sql.Row) (V, error) { return fromRow(rowBack(r)), nil },
-			UpdateWithRow: func(_ *sql.Context, r sql.Row, e V) (V, error) { return updateWithRow(rowBack(r), e), nil },
+	vops := imt.ValueOps[V]{
+		ToRow:         func(_ *sql.Context, v V) (sql.Row, error) { return sql.Row{v.F[0], v.F[1], v.F[2]}, nil },
+		FromRow:       func(_ *sql.Context, r sql.Row) (V, error) { return fromRow(rowBack(r)), nil },
+		UpdateWithRow: func(_ *sql.Context, r sql.Row, e V) (V, error) { return updateWithRow(rowBack(r), e), nil },
+	}
+	mops := imt.MultiValueOps[V]{
+		ToRows: func(_ *sql.Context, v V) ([]sql.Row, error) {
+			var rs []sql.Row
+			for _, w := range rowsOf(v) {
+				rs = append(rs, sql.Row{w.F[0], w.F[1], w.F[2]})
+			}
+			return rs, nil
 		},
+		FromRow:   func(_ *sql.Context, r sql.Row) (V, error) { return fromRow(rowBack(r)), nil },
+		AddRow:    func(_ *sql.Context, r sql.Row, e V) (V, error) { return rowAdd(rowBack(r), e), nil },
+		DeleteRow: func(_ *sql.Context, r sql.Row, e V) (V, error) { return rowDel(rowBack(r), e), nil },
+	}
+	// the tables of multimaptable.go over the same set; their Editor() is the OperationLockingTableEditor
+	var mu sync.RWMutex
+	ctx := sql.NewEmptyContext()
+	tbl := imt.NewIndexedSetTable[V]("t", nil, 0, set, vops, &mu, mu.RLocker())
+	mtbl := imt.NewMultiIndexedSetTable[V]("mt", nil, 0, set, mops, &mu, mu.RLocker())
+	ed := tbl.Editor()
+	med := mtbl.Editor()
+	readRows := func(t sql.Table) []V {
+		it, err := t.PartitionRows(ctx, nil)
+		if err != nil {
+			panic("PartitionRows: " + err.Error())
+		}
+		var r []V
+		for {
+			row, err := it.Next(ctx)
+			if err != nil {
+				break
+			}
+			x := rowBack(row)
+			r = append(r, V{[4]uint8{x[0], x[1], x[2], 0}})
+		}
+		return r
 	}
 	valid := len(cs.Keyers) > 0
 	for _, m := range cs.Keyers {
@@ -253,7 +310,7 @@ func run(c *lib.Ctx, cs caseT) {
 				set.VisitEntries(func(v V) { r = append(r, v) })
 				ob = "OBag " + coqVs(r)
 			case "insert":
-				err := ed.Insert(nil, rowOf(o.R))
+				err := ed.Insert(ctx, rowOf(o.R))
 				pk := err != nil && sql.ErrPrimaryKeyViolation.Is(err)
 				if err != nil && !pk {
 					panic("unexpected editor error: " + err.Error())
@@ -270,7 +327,7 @@ func run(c *lib.Ctx, cs caseT) {
 					}
 				}
 			case "delete":
-				if err := ed.Delete(nil, rowOf(o.R)); err != nil {
+				if err := ed.Delete(ctx, rowOf(o.R)); err != nil {
 					panic("unexpected editor error: " + err.Error())
 				}
 				ob = "OErr false"
@@ -280,7 +337,7 @@ func run(c *lib.Ctx, cs caseT) {
 					b.keep(func(w V) bool { return masked(k0, w) != kk })
 				}
 			case "update":
-				if err := ed.Update(nil, rowOf(o.R), rowOf(o.R2)); err != nil {
+				if err := ed.Update(ctx, rowOf(o.R), rowOf(o.R2)); err != nil {
 					panic("unexpected editor error: " + err.Error())
 				}
 				ob = "OErr false"
@@ -296,6 +353,76 @@ func run(c *lib.Ctx, cs caseT) {
 						b.keep(func(w V) bool { return masked(k0, w) != kk })
 						b.c = append(b.c, fromRow(o.R2))
 					}
+				}
+			case "minsert", "mdelete", "mupdate":
+				var err error
+				switch o.Kind {
+				case "minsert":
+					err = med.Insert(ctx, rowOf(o.R))
+				case "mdelete":
+					err = med.Delete(ctx, rowOf(o.R))
+				default:
+					err = med.Update(ctx, rowOf(o.R), rowOf(o.R2))
+				}
+				notFound := err != nil && errors.Is(err, imt.ErrEntryNotFound)
+				if err != nil && !notFound {
+					panic("unexpected editor error: " + err.Error())
+				}
+				ob = "OErr " + lib.CoqBool(notFound)
+				if len(cs.Keyers) > 0 {
+					k0 := cs.Keyers[0]
+					change := func(f func([3]uint8, V) V, r [3]uint8) bool { // true = entry not found
+						es := b.withKey(k0, masked(k0, fromRow(r)))
+						if len(es) != 1 {
+							return true
+						}
+						b.keep(func(w V) bool { return !eq(es[0], w) })
+						b.c = append(b.c, f(r, es[0]))
+						return false
+					}
+					var want bool
+					switch o.Kind {
+					case "minsert":
+						want = change(rowAdd, o.R)
+					case "mdelete":
+						want = change(rowDel, o.R)
+					default:
+						want = change(rowDel, o.R)
+						if !want {
+							want = change(rowAdd, o.R2)
+						}
+					}
+					if valid && want != notFound {
+						addFail(o.Kind+"/entry-not-found-wrong", fmt.Sprintf("%s: ErrEntryNotFound=%v, exactly one entry under the key=%v", desc, notFound, !want))
+					}
+				}
+			case "truncate":
+				n, err := tbl.Truncate(ctx)
+				if err != nil {
+					panic("Truncate: " + err.Error())
+				}
+				ob = fmt.Sprintf("OCount %d%%nat", n)
+				if valid && n != len(b.c) {
+					addFail("truncate/count-wrong", fmt.Sprintf("%s returned %d, %d elements stored", desc, n, len(b.c)))
+				}
+				b.c = nil
+				editorOnly = false
+			case "rows", "mrows":
+				var got, want []V
+				if o.Kind == "rows" {
+					got = readRows(tbl)
+					for _, w := range b.c {
+						want = append(want, V{[4]uint8{w.F[0], w.F[1], w.F[2], 0}})
+					}
+				} else {
+					got = readRows(mtbl)
+					for _, w := range b.c {
+						want = append(want, rowsOf(w)...)
+					}
+				}
+				ob = "OBag " + coqVs(got)
+				if valid && bagStr(got) != bagStr(want) {
+					addFail(o.Kind+"/rows-not-the-stored-rows", fmt.Sprintf("%s returned %v, stored rows %v", desc, got, want))
 				}
 			}
 		})
@@ -475,7 +602,7 @@ func gen(r *lib.RNG) caseT {
 		case x < 93:
 			v := pickV()
 			o = opT{Kind: "delete", R: [3]uint8{v[0], v[1], v[2]}}
-		default:
+		case x < 97 || mode == 1:
 			v := pickV()
 			o = opT{Kind: "update", R: [3]uint8{v[0], v[1], v[2]}, R2: genR(r)}
 			if r.Chance(1, 2) { // change one field only
@@ -483,6 +610,21 @@ func gen(r *lib.RNG) caseT {
 				o.R2[r.Intn(3)] = uint8(r.Range(1, 3))
 			}
 			recent = append(recent, fromRow(o.R2).F)
+		default:
+			o = opT{Kind: lib.Pick(r, []string{"rows", "mrows", "rows", "mrows", "truncate"})}
+		}
+		if mode != 1 && r.Chance(1, 7) { // the Multi editors
+			v := pickV()
+			o = opT{Kind: lib.Pick(r, []string{"minsert", "mdelete", "mupdate"}), R: [3]uint8{v[0], v[1], uint8(r.Range(1, 3))}}
+			if o.Kind == "mupdate" {
+				o.R2 = o.R
+				if r.Chance(1, 2) {
+					w := pickV()
+					o.R2 = [3]uint8{w[0], w[1], uint8(r.Range(1, 3))}
+				} else {
+					o.R2[2] = uint8(r.Range(1, 3))
+				}
+			}
 		}
 		cs.Ops = append(cs.Ops, o)
 	}
@@ -494,8 +636,8 @@ func main() {
 		c.Header = "From Coq Require Import List NArith.\nImport ListNotations.\nFrom GMS Require Import Sys.IndexedSet Corr.C47.\nOpen Scope N_scope."
 		c.CaseType = "C47.case"
 		c.MismatchFn = "C47.mismatches"
-		c.SetRule("operation sequences (1-40 ops: Put/Get/GetMany/Remove/RemoveMany/Count/Clear/VisitEntries and the editor's " +
-			"Insert/Delete/Update) on in_mem_table.IndexedSet[V], V = 3 data fields over 1..3 + a tag; Equals and the 0-3 keyers " +
+		c.SetRule("operation sequences (1-40 ops: Put/Get/GetMany/Remove/RemoveMany/Count/Clear/VisitEntries, Insert/Delete/Update and MultiInsert/MultiDelete/MultiUpdate through the " +
+			"tables' OperationLockingTableEditor, Truncate, PartitionRows of both tables) on in_mem_table.IndexedSet[V], V = 3 data fields over 1..3 + a tag; Equals and the 0-3 keyers " +
 			"are field masks (3/4 of the configurations satisfy the contract keyer-fields within Equals-fields; the others and the " +
 			"no-keyer configuration are compared with the model only); elements are re-used so that Equals-copies, shared keys, " +
 			"duplicate Puts and primary-key collisions are frequent. Non-trivial = at least 3 ops and one keyer; distinct = " +
@@ -530,6 +672,10 @@ func main() {
 			{Em: 3, Keyers: []uint8{}, Ops: []opT{{Kind: "put", V: p(1, 1, 1, 1)}, {Kind: "count"}, {Kind: "remove", V: p(1, 1, 1, 1)}, {Kind: "get", V: p(1, 1, 1, 1)},
 				{Kind: "insert", R: [3]uint8{1, 1, 1}}, {Kind: "visit"}}},
 			{Em: 7, Keyers: []uint8{3}, Ops: []opT{}},
+			// Multi editors: MultiUpdate whose delete succeeds and insert fails keeps the deletion (C47_multi_update_partial_effect)
+			{Em: 3, Keyers: []uint8{1, 2}, Ops: []opT{{Kind: "put", V: p(1, 1, 3, 7)}, {Kind: "mupdate", R: [3]uint8{1, 9, 1}, R2: [3]uint8{2, 9, 1}}, {Kind: "mrows"},
+				{Kind: "minsert", R: [3]uint8{1, 9, 1}}, {Kind: "mrows"}, {Kind: "rows"}, {Kind: "mdelete", R: [3]uint8{1, 9, 3}}, {Kind: "mrows"}, {Kind: "truncate"}, {Kind: "count"}}},
+			{Em: 3, Keyers: []uint8{}, Ops: []opT{{Kind: "minsert", R: [3]uint8{1, 1, 1}}, {Kind: "mupdate", R: [3]uint8{1, 1, 1}, R2: [3]uint8{1, 1, 2}}, {Kind: "rows"}, {Kind: "truncate"}}},
 		}
 		for _, cs := range corpus {
 			run(c, cs)
